@@ -21,6 +21,7 @@ import (
 )
 
 var _ = verifRegister("C49", engineC49)
+var _ = verifParam("C49", "total_buckets_max", func() int64 { return totalBucketsMax })
 
 func c49Z(v int64) string { return coqZ(v) }
 
